@@ -204,7 +204,7 @@ RCP<const Basic> Parser::functionify(const std::string &name, vec_basic &params)
                 throw ParseError(
                     "Boolean function received non-boolean arguments");
             }
-            return it3->second(rcp_static_cast<const Boolean>(params[0]));
+            return it3->second(parser_as_boolean(params[0]));
         }
     }
 
@@ -232,7 +232,7 @@ RCP<const Basic> Parser::functionify(const std::string &name, vec_basic &params)
                 throw ParseError(
                     "Boolean function received non-boolean arguments");
             }
-            p.push_back(rcp_static_cast<const Boolean>(v));
+            p.push_back(parser_as_boolean(v));
         }
         return it2->second(p);
     }
@@ -245,7 +245,7 @@ RCP<const Basic> Parser::functionify(const std::string &name, vec_basic &params)
                 throw ParseError(
                     "Boolean function received non-boolean arguments");
             }
-            s.insert(rcp_static_cast<const Boolean>(v));
+            s.insert(parser_as_boolean(v));
         }
         return it3->second(s);
     }
